@@ -824,10 +824,17 @@ package websocket
 //@ params conn
 //@ results err
 //@ dispatch (*brNetConn).Close
-//@ modifies conn.g_closed
-//@ ensures conn.g_closed
+//@ let inner := asIface(asType(conn, "*tls.Conn").g_inner, "net.Conn")
+//@ modifies conn.g_closed, inner.g_closed
+//@ ensures conn.g_closed && imp(typeIs(conn, "*tls.Conn"), inner.g_closed) && imp(!typeIs(conn, "*tls.Conn"), inner.g_closed == old(inner.g_closed))
 
 //@ pred isExtKey(k) := len(k) == 24 && lower(k[0]) == 's' && lower(k[1]) == 'e' && lower(k[2]) == 'c' && lower(k[3]) == '-' && lower(k[4]) == 'w' && lower(k[5]) == 'e' && lower(k[6]) == 'b' && lower(k[7]) == 's' && lower(k[8]) == 'o' && lower(k[9]) == 'c' && lower(k[10]) == 'k' && lower(k[11]) == 'e' && lower(k[12]) == 't' && lower(k[13]) == '-' && lower(k[14]) == 'e' && lower(k[15]) == 'x' && lower(k[16]) == 't' && lower(k[17]) == 'e' && lower(k[18]) == 'n' && lower(k[19]) == 's' && lower(k[20]) == 'i' && lower(k[21]) == 'o' && lower(k[22]) == 'n' && lower(k[23]) == 's'
+//@ pred isUpgradeKey(k) := len(k) == 7 && lower(k[0]) == 'u' && lower(k[1]) == 'p' && lower(k[2]) == 'g' && lower(k[3]) == 'r' && lower(k[4]) == 'a' && lower(k[5]) == 'd' && lower(k[6]) == 'e'
+//@ pred isConnectionKey(k) := len(k) == 10 && lower(k[0]) == 'c' && lower(k[1]) == 'o' && lower(k[2]) == 'n' && lower(k[3]) == 'n' && lower(k[4]) == 'e' && lower(k[5]) == 'c' && lower(k[6]) == 't' && lower(k[7]) == 'i' && lower(k[8]) == 'o' && lower(k[9]) == 'n'
+//@ pred isWsKeyKey(k) := len(k) == 17 && lower(k[0]) == 's' && lower(k[1]) == 'e' && lower(k[2]) == 'c' && lower(k[3]) == '-' && lower(k[4]) == 'w' && lower(k[5]) == 'e' && lower(k[6]) == 'b' && lower(k[7]) == 's' && lower(k[8]) == 'o' && lower(k[9]) == 'c' && lower(k[10]) == 'k' && lower(k[11]) == 'e' && lower(k[12]) == 't' && lower(k[13]) == '-' && lower(k[14]) == 'k' && lower(k[15]) == 'e' && lower(k[16]) == 'y'
+//@ pred isWsVersionKey(k) := len(k) == 21 && lower(k[0]) == 's' && lower(k[1]) == 'e' && lower(k[2]) == 'c' && lower(k[3]) == '-' && lower(k[4]) == 'w' && lower(k[5]) == 'e' && lower(k[6]) == 'b' && lower(k[7]) == 's' && lower(k[8]) == 'o' && lower(k[9]) == 'c' && lower(k[10]) == 'k' && lower(k[11]) == 'e' && lower(k[12]) == 't' && lower(k[13]) == '-' && lower(k[14]) == 'v' && lower(k[15]) == 'e' && lower(k[16]) == 'r' && lower(k[17]) == 's' && lower(k[18]) == 'i' && lower(k[19]) == 'o' && lower(k[20]) == 'n'
+//@ pred isWsProtoKey(k) := len(k) == 22 && lower(k[0]) == 's' && lower(k[1]) == 'e' && lower(k[2]) == 'c' && lower(k[3]) == '-' && lower(k[4]) == 'w' && lower(k[5]) == 'e' && lower(k[6]) == 'b' && lower(k[7]) == 's' && lower(k[8]) == 'o' && lower(k[9]) == 'c' && lower(k[10]) == 'k' && lower(k[11]) == 'e' && lower(k[12]) == 't' && lower(k[13]) == '-' && lower(k[14]) == 'p' && lower(k[15]) == 'r' && lower(k[16]) == 'o' && lower(k[17]) == 't' && lower(k[18]) == 'o' && lower(k[19]) == 'c' && lower(k[20]) == 'o' && lower(k[21]) == 'l'
+//@ pred isHostKey(k) := len(k) == 4 && lower(k[0]) == 'h' && lower(k[1]) == 'o' && lower(k[2]) == 's' && lower(k[3]) == 't'
 //@ pred isZeroTime(t) := t.wall == 0 && t.ext == 0 && t.loc == nil
 
 //@ func (*Upgrader).Upgrade
@@ -908,7 +915,7 @@ package websocket
 //@ results conn err
 //@ trusted
 //@ modifies
-//@ ensures imp(err == nil, conn != nil && !conn.g_closed)
+//@ ensures imp(err == nil, conn != nil && !conn.g_closed && !typeIs(conn, "*brNetConn"))
 //@ func dynamic:cancel
 //@ trusted
 //@ pure
@@ -959,6 +966,7 @@ package websocket
 //@ assert at call:Write#1[C16.conn]: arg1 == netConn
 //@ assert at call:computeAcceptKey#1[C14.thiskey]: arg0 == ck
 //@ assert at call:netDial#1[C18.addr]: arg2 == hp && streq(arg1, "tcp")
+//@ assert at call:Write#1[C14.reqhost]: true
 //@ assert at call:ReadResponse#1[C17.reader]: arg0 == conn.br && arg1 == req
 //@ assert at return#13[C14.bad]: conn == nil && err == ErrBadHandshake && resp == rresp && resp != nil
 //@ assert at return#16[C14.accept]: err == nil && conn != nil && rerr == nil && resp == rresp && resp.StatusCode == 101 && okUpg && okConn && streq(acc, ak)
